@@ -129,7 +129,43 @@ class Facts:
         self._mir = facts
         return facts
 
-    def _run_mirscan(self, out):
+    # ------------------------------------------------------------------ E2 over the runtime dependency closure
+    def runtime_closure(self):
+        """names of the non-proc-macro crates linked into a user of sv-parser (normal dependencies, transitively)"""
+        r = subprocess.run(['cargo', 'metadata', '--offline', '--format-version', '1'], cwd=self.root, capture_output=True, text=True, check=True)
+        m = json.loads(r.stdout)
+        pk = {p['id']: p for p in m['packages']}
+        nodes = {n['id']: n for n in m['resolve']['nodes']}
+        root = [p['id'] for p in m['packages'] if p['name'] == 'sv-parser'][0]
+        seen, todo = set(), [root]
+        while todo:
+            i = todo.pop()
+            if i in seen:
+                continue
+            if any('proc-macro' in t['kind'] for t in pk[i]['targets']):
+                continue
+            seen.add(i)
+            for d in nodes[i]['deps']:
+                if any(k['kind'] is None for k in d['dep_kinds']):
+                    todo.append(d['pkg'])
+        return sorted(pk[i]['name'].replace('-', '_') for i in seen)
+
+    def mir_deps(self):
+        """mirscan over every crate of the build (RUSTC_WRAPPER): statics and call sites of the dependency closure"""
+        out = os.path.join(self.dir, 'mirdeps')
+        with Lock(os.path.join(VERIF, '.cache', 'lock')):
+            if not os.path.exists(os.path.join(out, 'DONE')):
+                self._run_mirscan(out, wrapper_all=True)
+        facts = {}
+        for c in self.runtime_closure():
+            p = os.path.join(out, c + '.json')
+            if not os.path.exists(p):
+                raise RuntimeError('E2(deps): no fact file for runtime crate %s (fail closed)' % c)
+            with open(p) as f:
+                facts[c] = json.load(f)
+        return facts
+
+    def _run_mirscan(self, out, wrapper_all=False):
         if not os.path.exists(MIRSCAN):
             raise RuntimeError('mirscan binary missing: run MANIFEST.setup_cmd (%s)' % MIRSCAN)
         t0 = time.time()
@@ -144,11 +180,15 @@ class Facts:
             env.update({
                 'LD_LIBRARY_PATH': sysroot + '/lib' + (':' + env['LD_LIBRARY_PATH'] if env.get('LD_LIBRARY_PATH') else ''),
                 'RUSTFLAGS': '-Zmir-opt-level=0 -Awarnings',
-                'RUSTC_WORKSPACE_WRAPPER': MIRSCAN,
                 'CARGO_TARGET_DIR': target,
                 'MIRSCAN_OUT': tmp_out,
                 'CARGO_NET_OFFLINE': 'true',
             })
+            if wrapper_all:
+                env['RUSTC_WRAPPER'] = MIRSCAN
+                env['MIRSCAN_CFG'] = '-'
+            else:
+                env['RUSTC_WORKSPACE_WRAPPER'] = MIRSCAN
             self.log('E2: cargo +nightly check with mirscan (fresh target dir, about 1-2 min)...')
             r = subprocess.run(['cargo', '+nightly', 'check', '--offline', '--workspace', '--lib', '-j', '16'],
                                cwd=self.root, env=env, capture_output=True, text=True)
